@@ -17,11 +17,15 @@ THEOREMS = ['Otel.C13.' + t for t in (
 H = 's_c13'
 HARNESSES = [Harness(H, ['harness/s_c13.cc'], sdk_srcs=sdk_sources('common', 'resource', 'version', 'trace', 'logs'), includes=SDK_INCLUDES)]
 RULE = ('one case = one logging program on a provider with 1-8 processors of mixed kinds (simple / batch flushed on request) and two '
-        'loggers (enabled / disabled by configurator): push/pop of contexts carrying a span (as Span or as SpanContext) on three '
+        'loggers (enabled / disabled by configurator; processors, provider and logger obtained through rotating constructor / factory / '
+        'GetLogger overloads): push/pop of contexts carrying a span (as Span or as SpanContext, or a span entry without a span: null '
+        'Span, null SpanContext, a value of another type) on three '
         'sequentialised threads, CreateLogRecord, single typed setters on a record in hand, EmitLogRecord([record,] args...) through '
         'the real variadic template with every ordered pair of argument kinds (severity, EventId with/without name, SpanContext, '
-        'SpanId, TraceId, TraceFlags, SystemTimestamp, time_point, KeyValueIterable, pair container, body as AttributeValue of every '
-        'alternative / string_view / const char* / std::string), null and already-emitted records, ForceFlush, and the caller '
+        'SpanId, TraceId, TraceFlags, SystemTimestamp, time_point, KeyValueIterable, pair container, MakeAttributes(span / braced list / '
+        'container view), body as AttributeValue of every '
+        'alternative / string_view / const char* / std::string), null and already-emitted records, ForceFlush, processors attached later '
+        '(simple, batch, null, one that hands out no recordable), and the caller '
         'overwriting (scribble) or freeing the memory of earlier arguments. Streams: safe (caller memory only touched after export), '
         'deferred-scribble and deferred-free (touched between Emit and a batch export: the D14 witness family). non-trivial = at '
         'least one record reaches an exporter; distinct = distinct case line')
@@ -37,7 +41,8 @@ D14 = 'body-or-attrs-not-owned/deferred-export'
 D_EVNAME = 'event-name-truncated-at-NUL/EventId-holds-a-C-string'
 
 ARG_SCALAR = ['sev', 'eid', 'eidn', 'ctx', 'sid', 'tid', 'fl', 'ts', 'tp']
-ARG_CELL = ['attrs', 'attrsb', 'body', 'bodysv', 'bodycs', 'bodystd']
+ARG_CELL = ['attrs', 'attrsb', 'attrss', 'attrsi', 'attrsw', 'body', 'bodysv', 'bodycs', 'bodystd']
+ATTR_KINDS = ('attrs', 'attrsb', 'attrss', 'attrsi', 'attrsw')   # KeyValueIterable, pair container, MakeAttributes(span | {…} | container)
 
 
 def r_ident(rng):
@@ -77,8 +82,8 @@ class Gen:
         b = self.next_buf
         self.next_buf += 1
         pool = [b'k', b'a', b'key.two', b'', b'k\x00x', b'\xff\xfe']
-        if k in ('attrs', 'attrsb'):
-            a = r_attrs(rng, pool, 5, self.big)
+        if k in ATTR_KINDS:
+            a = r_attrs(rng, pool, rng.choice([1, 2, 5]) if k == 'attrsi' else 5, self.big)
             return f'{k}#{b}/{a}', b
         if k == 'body': return f'body#{b}/{r_value(rng, self.big)}', b
         if k == 'bodycs': return f'bodycs#{b}/c:{hx(r_bytes(rng))}', b
@@ -165,7 +170,11 @@ class Gen:
             r = rng.random()
             if r < 0.2:
                 t = rng.randrange(3)
-                self.ops.append(f'{rng.choice(["push", "push", "pushc"])} {t} {r_ident(rng)}')
+                if rng.random() < 0.12:
+                    # the context's span entry carries no span (null Span, null SpanContext, another type): no active span
+                    self.ops.append(f'{rng.choice(["pushn", "pushnc", "pushx"])} {t}')
+                else:
+                    self.ops.append(f'{rng.choice(["push", "push", "pushc"])} {t} {r_ident(rng)}')
                 self.depth[t] += 1
             elif r < 0.3:
                 t = rng.randrange(3)
@@ -181,7 +190,8 @@ class Gen:
                 self.pending = []
                 if rng.random() < 0.2:
                     # attach one more processor (a batch one only where the program already reckons with deferred export)
-                    self.ops.append('addproc ' + (rng.choice('sb') if 'b' in self.procs else 's'))
+                    # (`n`: a null processor, ignored; `z`: a processor that hands out no recordable and so receives nothing)
+                    self.ops.append('addproc ' + (rng.choice('sbnz') if 'b' in self.procs else rng.choice('ssnz')))
             elif r < 0.92:
                 # caller memory op: safe = only on cells nobody will read any more
                 if self.mode == 'safe' or hazard_done or not self.pending:
@@ -231,13 +241,33 @@ def corpus():
         C('log s 72 6c/-/- ; emit 0 e new sev:1 sev:2 ; emit 0 e new body#1/s:61 body#2/i:5 ; emit 0 e new attrs#3/6b=i:1,6c=i:2 attrsb#4/6b=s:7a ; '
           'emit 0 e new ts:5 tp:6 ; emit 0 e new tp:6 ts:5 ; emit 0 e new eid:1:61 eid:2:62 ; create 0 e 1 ; set 1 sev:9 ; set 1 body#5/S:61.-.62 ; '
           'set 1 attrs#6/6b=B:1.0 ; set 1 ctx:' + '1' * 32 + '/' + '2' * 16 + '/03 ; emit 0 e 1 sev:10 tid:' + '9' * 32, 'later-argument-wins'),
+        # a context whose span entry carries no span (null Span / null SpanContext / a value of another type) hides the span
+        # below it: no active span, all-zero ids; explicit identity still applies; popping it brings the span back
+        C(f'log sb 72 6c/-/- ; push 0 {sp} ; pushn 0 ; emit 0 e new sev:1 ; create 0 e 1 ; pop 0 ; emit 0 e new sev:2 ; emit 0 e 1 ; '
+          f'pushnc 0 ; emit 0 e new sid:' + 'f' * 16 + ' ; pushx 0 ; emit 0 e new ; pop 0 ; pop 0 ; emit 0 e new ; pushx 1 ; emit 1 e new ; '
+          f'pushc 1 {sp} ; emit 1 e new', 'span-entry-without-span'),
+        C('log s 72 6c/-/- ; pushn 2 ; emit 2 e new ; pushnc 2 ; emit 2 e new fl:01 ; pushx 2 ; emit 2 e new tid:' + 'a' * 32, 'span-entry-without-span'),
+        # attributes through common::MakeAttributes: a span of pairs, a braced list (0, 1, 2 and more pairs), a container view
+        C('log sb 72 6c/-/- ; emit 0 e new attrss#1/6b=i:1,6c=s:7a attrsi#2/6b=i:2 ; emit 0 e new attrsi#3/- sev:3 ; '
+          'emit 0 e new attrsi#4/61=b:1,62=l:-2 attrsw#5/62=s:6869,63=S:61.62 ; emit 0 e new attrsi#6/61=i:1,62=i:2,61=i:3 ; '
+          'create 0 e 1 ; set 1 attrsw#7/6b=d:3ff0000000000000 ; set 1 attrss#8/- ; set 1 attrsi#9/6b=u:4 ; emit 0 e 1 attrsw#10/-', 'make-attributes'),
+        C('log b 72 6c/-/- ; emit 0 e new:v sev:9 attrss#1/6b=s:68656c6c6f ; emit 0 e new:v sev:13 attrsi#2/6b=I:1.2 ; emit 0 e new:v sev:21 attrsw#3/6b=c:6100 ; flush ; free 1 ; free 2 ; free 3',
+          'make-attributes'),
+        # a null processor is ignored; a processor that hands out no recordable is handed nothing and disturbs nobody
+        C('log s 72 6c/-/- ; addproc n ; emit 0 e new sev:1 ; addproc z ; emit 0 e new sev:2 body#1/s:61 attrs#2/6b=i:1 ; create 1 e 1 ; '
+          'set 1 sev:3 ; set 1 eid:4:6e ; set 1 ctx:' + '1' * 32 + '/' + '2' * 16 + '/03 ; set 1 ts:5 ; addproc s ; emit 1 e 1 ; emit 0 e new sev:6 ; addproc n', 'addproc-null'),
+        C('log bs 72 6c/-/- ; addproc z ; addproc b ; emit 2 e new sev:1 tp:7 ; emit 0 e null sev:2 ; flush ; addproc z ; emit 0 e new fl:01 sid:' + '3' * 16, 'addproc-null'),
+        # every fixed-signature wrapper with an EventId, all six severities
+        C(' ; '.join(['log sb 72 6c/76/73'] + [f'emit 0 e new:w4e sev:{v} eid:{v}:6e{v:02x} bodysv#{i * 2 + 1}/s:6d attrs#{i * 2 + 2}/6b=i:{v}' for i, v in enumerate((1, 5, 9, 13, 17, 21))]),
+          'wrappers-eventid'),
         # the EventId wrapper keeps its name as a C string
         C('log s 72 6c/-/- ; emit 0 e new eid:1:610062', 'eventid-name-embedded-nul'),
     ]
     for bad in ('log', 'log x 72 6c/-/-', 'log s 72 -/-/-', 'log s 72 6c/-/- ; emit 3 e new', 'log s 72 6c/-/- ; emit 0 x new', 'log s 72 6c/-/- ; emit 0 e new sev:256',
                 'log s 72 6c/-/- ; emit 0 e new body#1/s:61 body#1/s:62', 'log s 72 6c/-/- ; emit 0 e new sev:1 sev:2 sev:3', 'log s 72 6c/-/- ; set 1 bogus:1',
                 'log s 72 6c/-/- ; emit 0 e new bodysv#1/i:5', 'log s 72 6c/-/- ; emit 0 e new tid:00', 'log s 72 6c/-/- ; push 0 00/00/00', 'log s 72 6c/-/- ; free x',
-                'log s 72 6c/-/- ; emit 0 e new eid:1:2:3', 'log s 72 6c/-/- ; emit 0 e new body#1', 'log s 72 6c/-/- ; create 0 e'):
+                'log s 72 6c/-/- ; emit 0 e new eid:1:2:3', 'log s 72 6c/-/- ; pushn 3', 'log s 72 6c/-/- ; pushx 0 ' + sp, 'log s 72 6c/-/- ; pushn',
+                'log s 72 6c/-/- ; addproc x', 'log s 72 6c/-/- ; emit 0 e new attrsq#1/6b=i:1', 'log s 72 6c/-/- ; emit 0 e new attrsi#1/6b', 'log s 72 6c/-/- ; emit 0 e new body#1', 'log s 72 6c/-/- ; create 0 e'):
         out.append(C(bad, 'malformed'))
     return out
 
@@ -308,7 +338,7 @@ def p_arg(tok):
         if len(q) != 2:
             raise Bad(tok)
         b = p_small(q[0], 100000)
-        if p[0] in ('attrs', 'attrsb'):
+        if p[0] in ATTR_KINDS:
             return ('attrs', spec_attrs(q[1]), b)
         v = spec_value(q[1])
         tag = q[1].split(':')[0]
@@ -416,6 +446,7 @@ def simulate(line):
             raise Bad('empty op')
         k = o[0]
         if k in ('push', 'pushc') and len(o) == 3: ops.append(('push', p_small(o[1], 3), p_ident(o[2])))
+        elif k in ('pushn', 'pushnc', 'pushx') and len(o) == 2: ops.append(('push', p_small(o[1], 3), None))   # no span in it
         elif k == 'pop' and len(o) == 2: ops.append(('pop', p_small(o[1], 3)))
         elif k == 'create' and len(o) == 4 and o[2] in ('e', 'd'): ops.append(('create', p_small(o[1], 3), o[2] == 'e', p_small(o[3], 100000)))
         elif k == 'set' and len(o) == 3: ops.append(('set', p_small(o[1], 100000), [p_arg(o[2])]))
@@ -430,7 +461,7 @@ def simulate(line):
             ops.append(('emit', p_small(o[1], 3), o[2] == 'e', tgt, args))
         elif k in ('scribble', 'free') and len(o) == 2: ops.append((k, p_small(o[1], 100000)))
         elif k == 'flush' and len(o) == 1: ops.append(('flush',))
-        elif k == 'addproc' and len(o) == 2 and o[1] in ('s', 'b'): ops.append(('addproc', o[1]))
+        elif k == 'addproc' and len(o) == 2 and o[1] in ('s', 'b', 'n', 'z'): ops.append(('addproc', o[1]))
         else:
             raise Bad('op')
         if ops[-1][0] in ('set', 'emit'):
@@ -447,7 +478,8 @@ def simulate(line):
     late = []         # (op index, kind) of processors attached with `addproc`
     for i, o in enumerate(ops):
         if o[0] == 'addproc':
-            late.append((i, o[1]))
+            if o[1] != 'n':                                # a null processor is not a processor
+                late.append((i, o[1]))
             continue
         if o[0] == 'push': stacks[o[1]].append(o[2])
         elif o[0] == 'pop':
@@ -513,11 +545,11 @@ def hazard(sim, kinds=('scribble', 'free')):
 
 def model_line(case, out):
     """the model has the configured processors only; what a processor attached later must receive is the oracle's business"""
-    return re.sub(r' ; addproc [sb](?= ;|$)', '', case.line)
+    return re.sub(r' ; addproc [sbnz](?= ;|$)', '', case.line)
 
 
 def agree(case, out, mout):
-    n = len(re.findall(r' ; addproc [sb](?= ;|$)', case.line))
+    n = len(re.findall(r' ; addproc [sbz](?= ;|$)', case.line))
     if n and not out.startswith(('CRASH', 'bad-op')):
         out = ' | '.join(out.split(' | ')[:-n])
     return out == mout
@@ -542,16 +574,18 @@ def oracle(case, out):
     if len(parts) != len(kinds):
         return ('reaches-every-processor-exactly-once', f'{len(parts)} processors reported, {len(procs)} configured + {len(late)} attached later')
     for i, seg in enumerate(parts):
-        m = re.fullmatch(r'p(\d+):([sb]):n=(\d+):x=\[(.*)\]', seg)
+        m = re.fullmatch(r'p(\d+):([sbz]):n=(\d+):x=\[(.*)\]', seg)
         if not m or int(m.group(1)) != i or m.group(2) != kinds[i]:
             return ('reaches-every-processor-exactly-once', f'processor {i}: {seg[:120]}')
         # a processor attached later receives exactly the records created after it was attached
         emitted = all_emitted if i < len(procs) else [(ei, r) for (ei, r) in all_emitted if r['_born'] > late[i - len(procs)][0]]
+        if kinds[i] == 'z':
+            emitted = []                                   # it hands out no recordable: nothing is emitted to it
         got = REC_RE.findall(m.group(4))
         if int(m.group(3)) != len(emitted) or len(got) != len(emitted):
             what = 'an ignored emit (null / already emitted record, disabled logger) reached the processor' if len(got) > len(emitted) else 'a record was lost'
             return ('reaches-every-processor-exactly-once',
-                    f'processor {i} ({procs[i]}): OnEmit={m.group(3)} exported={len(got)} emitted={len(emitted)}: {what}')
+                    f'processor {i} ({kinds[i]}): OnEmit={m.group(3)} exported={len(got)} emitted={len(emitted)}: {what}')
         if m.group(4).count('{') != len(got):
             return ('reaches-every-processor-exactly-once', f'processor {i}: unparsable export log')
         for j, ((ei, r), g) in enumerate(zip(emitted, got)):
